@@ -93,6 +93,8 @@ class C16(Check):
         if spec.get("objectives") and rng.random() < 0.5:
             cfg["optimizer"] = "optimize"
             cfg["optimize_priority"] = rng.choice(["lex", "pareto", "weight"])
+        if cfg.get("optimizer") != "optimize" and rng.random() < 0.2:
+            cfg["debug"] = True   # tracked assertions: the exported text must still denote the system the solver checks
         cfg = self.safe_config(cfg, spec)
         plan = {"property": self.pid, "run_seed": run_seed, "sim_version": 1, "tier": tier, "needs_scratch": True,
                 "clients": [{"id": "A", "spec": spec, "config": cfg}, {"id": "A3", "spec": "=A", "config": {}}], "script": []}
@@ -135,7 +137,7 @@ class C16(Check):
         # the exported constraint system is solved on its own and its model pinned on a fresh client
         last_smt = [s for s in script if s["op"] == "export_smt2"]
         if last_smt:
-            script.append({"client": "A3", "op": "solve", "env": [{"steer": {"mode": "smt2_model", "of": "A", "path": last_smt[-1]["args"]["path"]}}]})
+            script.append({"client": "A3", "op": "solve", "env": [{"steer": {"mode": "smt2_model", "of": "A", "path": last_smt[-1]["args"]["path"], "keep_symbolic": True}}]})
         if not fault_free:
             n_w = sum(1 for s in script if s["op"] in ("to_json_file", "export_smt2"))
             if n_w:
@@ -247,13 +249,13 @@ class C16(Check):
                 want = "sat" if solve_ev["outcome"] == "solution" else "unsat"
                 # an export taken after find_another would carry blocking clauses; the script never does that
                 if sp["verdict"] != want:
-                    v.violate("C16", "smt2/sat", [cfg.get("optimizer", "incremental")], {"parsed": sp["verdict"], "solver": solve_ev["outcome"]}, smt_exports[-1]["seq"], "A")
+                    v.violate("C16", "smt2/sat", [cfg.get("optimizer", "incremental")] + (["debug"] if cfg.get("debug") else []), {"parsed": sp["verdict"], "solver": solve_ev["outcome"]}, smt_exports[-1]["seq"], "A")
         if evx is not None:
             for st in evx.get("steers") or []:
                 if st.get("tag") == "smt2-model":
                     v.probe("smt2_model_pinned")
                     if not st.get("admitted") and st.get("why") != "unknown":
-                        v.violate("C16", "smt2/model", [cfg.get("optimizer", "incremental")], {"pins": st.get("pins")}, evx["seq"], "A3")
+                        v.violate("C16", "smt2/model", [cfg.get("optimizer", "incremental")] + (["debug"] if cfg.get("debug") else []), {"pins": st.get("pins")}, evx["seq"], "A3")
             if evx.get("outcome") == "solution":
                 f = self.evaluate_event(plan, result, evx)
                 for it in f.items:
